@@ -173,6 +173,10 @@ def run_check(prop, tier, seed, keep=False):
         for i, c in enumerate(cs):
             cases.append(('%s-%05d' % (fam, i), c))
         log('[%s] family %s: %d cases (%d states, %.1fs)' % (prop, fam, len(cs), st['distinct'], st['wall_s']))
+    proofs = []
+    if prop == 'C03':      # lemma L1 for all cardinalities (TLAPS), next to TLC's check of it on every generated relation
+        proofs.append(tlc.prove(os.path.join(work, 'proof')))
+        log('[%s] %s' % (prop, proofs[-1]))
     cases = scripts.select_cases(prop, tier, seed, cases)
     case_of = dict(cases)
     recs = pack_shards(work, drive(prop, tier, seed, cases, work))
@@ -263,6 +267,7 @@ def run_check(prop, tier, seed, keep=False):
                          'events': [{'a': e['a'], 'args': e.get('args', {})} for e in sample['ev']][:12]}],
             'exhaustive': all(not s.get('simulate') for s in gen_stats) and not cov.get('sampled', False),
             'generators': gen_stats,
+            'proofs': proofs,
             'evaluations': ntraces,
             'distinct_nontrivial': cov.get('nontrivial', 0),
             'rule': cov.get('rule', ''),
